@@ -339,6 +339,8 @@ func (g *Graph) Guards(target Point) []Guard {
 // conditions it entails: (a && b)=true gives a, b; (a || b)=false gives !a, !b;
 // !x flips.  Disjunctive knowledge ((a||b)=true) is kept as one atom.
 // go/cfg does not split short-circuit operators, so this is done here.
+var negCmp = map[token.Token]token.Token{token.EQL: token.NEQ, token.NEQ: token.EQL, token.LSS: token.GEQ, token.GEQ: token.LSS, token.GTR: token.LEQ, token.LEQ: token.GTR}
+
 func Atoms(e ast.Expr, pol bool) []Guard {
 	e = ast.Unparen(e)
 	switch x := e.(type) {
@@ -349,6 +351,13 @@ func Atoms(e ast.Expr, pol bool) []Guard {
 	case *ast.BinaryExpr:
 		if (x.Op == token.LAND && pol) || (x.Op == token.LOR && !pol) {
 			return append(Atoms(x.X, pol), Atoms(x.Y, pol)...)
+		}
+		// a comparison known to be false is the negated comparison known to be true:
+		// `if a != b {..} else {HERE}` and `if a == b {HERE}` give the same atom.
+		if !pol {
+			if op, ok := negCmp[x.Op]; ok {
+				return []Guard{{&ast.BinaryExpr{X: x.X, OpPos: x.OpPos, Op: op, Y: x.Y}, true}}
+			}
 		}
 	}
 	return []Guard{{e, pol}}
